@@ -5,7 +5,7 @@
    One universe of terms, as in the Python code ("Python lists contain programs
    and NumPy arrays contain data", a function value IS its syntax node):
 
-     TInt/TStr/TChar/TArr   data (int, str, KGChar, numpy array)
+     TInt/TReal/TStr/TChar/TArr   data (int, float, str, KGChar, numpy array)
      TNone                  Python None (an open hole of a projection; also a value once it leaks)
      TSym                   KGSym
      TOp1/TOp2              KGFn(KGOp, args, 1|2)   — operator application nodes
@@ -30,6 +30,7 @@ Inductive op2 := Add | Sub | Mul | Join | At | Eq | Lt | Define.
 
 Inductive term :=
 | TInt (z : Z)
+| TReal (bits : Z)                       (* a Python float, by its IEEE-754 binary64 bit pattern *)
 | TStr (s : list Z)
 | TChar (c : Z)
 | TArr (l : list term)
@@ -39,7 +40,9 @@ Inductive term :=
 | TOp2 (o : op2) (a b : term)
 | TFn (iscall : bool) (a : term) (args : option (list term)) (arity : nat)
 | TCond (c a b : term)
-| TSeq (l : list term).
+| TSeq (l : list term)
+| TPy (id : Z) (params : list name).     (* KGLambda: a Python callable (system function or registered from Python)
+                                            with the x y z it takes; its behaviour is the oracle `pyfun id` *)
 
 Inductive errk := EType | EIndex | EUndef | EUnmodelled | EFuel.
 Inductive res := Ok (t : term) | Err (k : errk).
@@ -293,7 +296,7 @@ Definition join (a b : term) : res :=
   | Some x, Some y => Ok (TStr (x ++ y))
   | _, _ =>
       match a, b with
-      | TSeq _, _ | _, TSeq _ => Err EUnmodelled
+      | TSeq _, _ | _, TSeq _ | TReal _, _ | _, TReal _ => Err EUnmodelled      (* kg_asarray makes [1 0.5] all-real *)
       | _, _ => if deep a || deep b then Err EUnmodelled else Ok (TArr (as_list a ++ as_list b))
       end
   end.
@@ -382,6 +385,7 @@ Definition apply1 (o : op1) (a : term) : res :=
   | Neg => match a with
            | TInt z => Ok (TInt (- z))
            | TStr [] => Err EUnmodelled
+           | TReal _ | TPy _ _ => Err EUnmodelled
            | TArr l => match all_int l with Some zs => Ok (ints (map Z.opp zs)) | None => Err EUnmodelled end
            | TSeq _ => Err EUnmodelled
            | _ => Err EType
@@ -401,10 +405,20 @@ Definition apply1 (o : op1) (a : term) : res :=
               end
   end.
 
-(* Klong truth as written in eval(): not ((is_number(q) and q == 0) or is_empty(q)) *)
-Definition truthy (q : term) : bool :=
+(* zero test of a float: +0.0 and -0.0 *)
+Definition real_is_zero (b : Z) : bool := (b =? 0) || (b =? 9223372036854775808).
+(* |x| <= 1e-8, what a tolerance comparison (numpy.isclose) with 0 accepts; NaN is not *)
+Definition real_near_zero (b : Z) : bool :=
+  let mag := if b <? 9223372036854775808 then b else b - 9223372036854775808 in
+  mag <=? 4487126258331716666.
+
+(* Klong truth as written in eval(): not ((is_number(q) and q == 0) or is_empty(q)).
+   `exact` = the regenerated fact that the zero test is `q == 0` (Generated.cond_zero_test_is_exact);
+   otherwise the model takes the tolerance reading of "equal to 0". *)
+Definition truthy (exact : bool) (q : term) : bool :=
   match q with
   | TInt z => negb (z =? 0)
+  | TReal b => negb (if exact then real_is_zero b else real_near_zero b)
   | TStr [] => false
   | TArr [] => false
   | TSeq [] => false
@@ -422,7 +436,7 @@ Definition as_call (t : term) : term :=
   end.
 
 Definition is_kgfn (t : term) : bool :=
-  match t with TFn _ _ _ _ | TOp1 _ _ | TOp2 _ _ _ => true | _ => false end.
+  match t with TFn _ _ _ _ | TOp1 _ _ | TOp2 _ _ _ | TPy _ _ => true | _ => false end.   (* isinstance(_f, (KGFn, KGLambda)) *)
 
 Definition rargs := list (option (list term)).
 
@@ -498,6 +512,15 @@ Definition merged_info (m : mres) : nat * bool * list term :=
   | MErr => (0%nat, false, [])
   end.
 
+Fixpoint lookup_all (ks : list name) (fr : list frame) : option (list term) :=
+  match ks with
+  | [] => Some []
+  | k :: r => match ctx_lookup k fr, lookup_all r fr with
+              | Some v, Some vs => Some (v :: vs)
+              | _, _ => None
+              end
+  end.
+
 (* the new frame and the program to run in it: x y z, then .f = the function including its
    declaration, then the declared locals bound to themselves unless they are parameters *)
 Definition bind_frame (f : term) (vs : list term) : frame * term :=
@@ -511,6 +534,11 @@ Section Step.
   (* `fin` : the pop of _eval_fn sits in a `finally:` (Generated.eval_fn_pop_in_finally) *)
   Variable fin : bool.
   Variable fixed_merge : bool.
+  (* the zero test of a conditional is `q == 0` (Generated.cond_zero_test_is_exact) *)
+  Variable exact_truth : bool.
+  (* Python callables are opaque, possibly failing oracles on their argument values; they are
+     assumed not to call back into the interpreter *)
+  Variable pyfun : Z -> list term -> res.
   (* the evaluator one fuel level below *)
   Variable ev : state -> term -> res * state.
 
@@ -562,7 +590,17 @@ Section Step.
               | None => (Err k, st1)
               | Some vs =>
                   let (c2, f1) := bind_frame f vs in
-                  let (r, st2) := callv (push c2 st1) f1 in
+                  let (r, st2) :=
+                    match f1 with
+                    | TPy id params =>
+                        (* f(self, self._context): the positional arguments are read through the whole stack *)
+                        let st2 := push c2 st1 in
+                        (match lookup_all params (frames st2) with
+                         | Some vals => pyfun id vals
+                         | None => Err EUndef
+                         end, st2)
+                    | _ => callv (push c2 st1) f1
+                    end in
                   match r with
                   | Ok _ => (r, pop st2)
                   | Err _ => if fin then (r, pop st2) else (r, st2)
@@ -610,7 +648,7 @@ Section Step.
                 match o with
                 | At =>
                     match va with
-                    | TSym _ | TFn _ _ _ _ => ev st2 (TFn true va (Some (at_args vb)) 1)
+                    | TSym _ | TFn _ _ _ _ | TPy _ _ => ev st2 (TFn true va (Some (at_args vb)) 1)
                     | _ => (apply2 o va vb, st2)
                     end
                 | _ => (apply2 o va vb, st2)
@@ -622,7 +660,7 @@ Section Step.
         let (rc, st1) := callv st c in
         match rc with
         | Err k => (Err k, st1)
-        | Ok q => if truthy q then callv st1 a else callv st1 b
+        | Ok q => if truthy exact_truth q then callv st1 a else callv st1 b
         end
     | TSeq (y :: r) =>
         let (ry, st1) := callv st y in
@@ -634,24 +672,26 @@ Section Step.
     end.
 End Step.
 
-Fixpoint eval (fin fixed_merge : bool) (fuel : nat) (st : state) (t : term) : res * state :=
+Fixpoint eval (fin fixed_merge exact_truth : bool) (pyfun : Z -> list term -> res)
+              (fuel : nat) (st : state) (t : term) : res * state :=
   match fuel with
   | O => (Err EFuel, st)
-  | S f => eval_step fin fixed_merge (eval fin fixed_merge f) st t
+  | S f => eval_step fin fixed_merge exact_truth pyfun (eval fin fixed_merge exact_truth pyfun f) st t
   end.
 
-Definition call (fin fixed_merge : bool) (fuel : nat) (st : state) (t : term) : res * state :=
-  eval fin fixed_merge fuel st (as_call t).
+Definition call (fin fixed_merge exact_truth : bool) (pyfun : Z -> list term -> res)
+                (fuel : nat) (st : state) (t : term) : res * state :=
+  eval fin fixed_merge exact_truth pyfun fuel st (as_call t).
 
 Definition init_state : state := mk_state [[]] [].
 
 (* run a list of top-level statements, each like KlongInterpreter.__call__ on its own
    text (an exception ends that statement only) *)
-Fixpoint run (fin fixed_merge : bool) (fuel : nat) (st : state) (progs : list term)
-  : list (res * state) :=
+Fixpoint run (fin fixed_merge exact_truth : bool) (pyfun : Z -> list term -> res)
+             (fuel : nat) (st : state) (progs : list term) : list (res * state) :=
   match progs with
   | [] => []
   | p :: r =>
-      let (rp, st1) := call fin fixed_merge fuel st p in
-      (rp, st1) :: run fin fixed_merge fuel st1 r
+      let (rp, st1) := call fin fixed_merge exact_truth pyfun fuel st p in
+      (rp, st1) :: run fin fixed_merge exact_truth pyfun fuel st1 r
   end.
